@@ -153,11 +153,16 @@ fn main() {
             // pool: an omitted parent p shared by two children inside the domain, plus a
             // further in-domain ancestor q (p; q=child(p); c2=child(p); c1=merge(p,q);
             // start=merge(c1,c2)), optionally extended by random commits
-            let shared_root_pool = rng.chance(1, 12);
-            let n_new = if shared_root_pool { n_new.max(5) } else { n_new };
+            // index 0 is a fixed corpus case: the replay of the (repaired) finding
+            // annotate-unresolved-root-counted-twice; it fails if the fix is reverted
+            let corpus0 = i == 0;
+            let shared_root_pool = corpus0 || rng.chance(1, 12);
+            let n_new = if corpus0 { 5 } else if shared_root_pool { n_new.max(5) } else { n_new };
             const POOL_PARENTS: [&[usize]; 5] = [&[0], &[1], &[1], &[1, 2], &[4, 3]];
-            let pool_len = 4 + rng.usize(4);
-            let pool_lines: Vec<usize> = {
+            let pool_len = if corpus0 { 4 } else { 4 + rng.usize(4) };
+            let pool_lines: Vec<usize> = if corpus0 {
+                vec![1, 2, 0]
+            } else {
                 let mut v: Vec<usize> = (0..pool_len).collect();
                 rng.shuffle(&mut v);
                 v.truncate(3);
@@ -275,7 +280,7 @@ fn main() {
             let pos: HashMap<CommitId, usize> = ids.iter().enumerate().map(|(i, id)| (id.clone(), i)).collect();
             let text_of = |x: usize| -> Vec<u8> { texts[x].clone().unwrap_or_default().into_bytes() };
 
-            let start = if shared_root_pool && rng.chance(2, 3) {
+            let start = if corpus0 || shared_root_pool && rng.chance(2, 3) {
                 5
             } else if rng.chance(2, 3) {
                 n - 1 - rng.usize(n.min(3)).min(n - 2)
@@ -284,7 +289,7 @@ fn main() {
             };
             type R = ResolvedRevsetExpression;
             let commits_of = |xs: &[usize]| R::commits(xs.iter().map(|&x| ids[x].clone()).collect());
-            let (domain, dshape): (Arc<R>, &str) = match if shared_root_pool && rng.chance(2, 3) { 99 } else { rng.below(10) } {
+            let (domain, dshape): (Arc<R>, &str) = match if corpus0 || shared_root_pool && rng.chance(2, 3) { 99 } else { rng.below(10) } {
                 99 => (commits_of(&[1]).range(&commits_of(&[start])), "range"),
                 0..=3 => (R::all(), "all"),
                 4 => (commits_of(&[start]).ancestors(), "ancestors"),
